@@ -81,7 +81,7 @@ def run_ring_property(pid, props_file, gen, rule, extra_trusted=(), assumptions=
     if rep_fail is not None and not run.violations and val_fail is None:
         tr, why = rep_fail
         run.violation({"kind": "correspondence-broken (the logged execution is not an execution of the proof model: replay on the extracted Pipeline.v / MultiPub.v step relation failed; the property monitors held on every explored schedule)",
-                       "correspondence": "pipe_replay_entry / ring_replay_entry / live_replay_entry vs harness/ring trace", "why": why, "config": tr.cfg.to_json(), "schedule": tr.schedule},
+                       "correspondence": "pipe_replay_entry / ring_replay_entry / multipipe_replay_entry / live_replay_entry vs harness/ring trace", "why": why, "config": tr.cfg.to_json(), "schedule": tr.schedule},
                       name=f"corr-{run.tier}.json", no_input=True)
     if val_fail is not None and not run.violations:
         tr, why = val_fail
@@ -95,6 +95,7 @@ def run_ring_property(pid, props_file, gen, rule, extra_trusted=(), assumptions=
     run.cov["traces_rejected_by_the_proof_model_replay"] = n_rep_rej
     import ringvalidate as _rv
     run.cov["termination_model_replay"] = dict(_rv.LIVE_STATS)
+    run.cov["traces_replayed_on_the_product_model_MultiPipe"] = _rv.REPLAY_STATS["multi_pipeline_product_replays"]
     import ringvalidate
     if ringvalidate.DRIVER_FAILURES:
         run.notes.append(f"trace validation skipped for {len(ringvalidate.DRIVER_FAILURES)} traces the OCaml driver could not evaluate (stack depth; trace lengths {sorted(ringvalidate.DRIVER_FAILURES)[-3:]} events)")
